@@ -124,12 +124,10 @@ def formulas(bp, wl, thr_value, area_cm2):
 def impl_call(case):
     import astropy.units as u
 
-    def build():
-        return O.eval_expr(case['expr'])
-    b = guarded(build)
-    if 'err' in b:
-        return {'ok': {m: {'err': b['err']} for m in METHODS}, '_build_err': b['err']}
-    bp = O.eval_expr(case['expr'])
+    try:
+        bp = O.eval_expr(case['expr'])
+    except Exception as e:  # noqa
+        return {'ok': {m: {'err': core.exc_name(e)} for m in METHODS}, '_build_err': core.exc_name(e)}
     area_v = O.fl(case['area'])
     area = area_v * u.m ** 2 if case['area_unit'] == 'm2' else (area_v * u.cm ** 2 if case.get('area_as_quantity') else area_v)
     area_cm2 = area_v * 1e4 if case['area_unit'] == 'm2' else area_v
@@ -151,10 +149,12 @@ def impl_call(case):
             out['_tl_spread'] = max(sp['ok']) - min(sp['ok'])
     # scale law: bp * k with the threshold scaled alongside
     k = O.fl(case['k'])
-    out['_scaled'] = call_all(bp * k, wl, None if thr is None else thr * k, area)
+    if case.get('do_scaled', True):
+        out['_scaled'] = call_all(bp * k, wl, None if thr is None else thr * k, area)
     if case['grid'] is not None:
-        out['_rev'] = call_all(bp, wave_arg(case, 'rev'), thr, area)
-        if case.get('grid_unit'):
+        if case.get('do_rev', True):
+            out['_rev'] = call_all(bp, wave_arg(case, 'rev'), thr, area)
+        if case.get('grid_unit') and case.get('do_unit', True):
             wu = wave_arg(case, 'unit')
             out['_unit'] = call_all(bp, wu, thr, area)
             out['_unit_x'] = guarded(lambda: bp._validate_wavelengths(wu).value)
@@ -287,8 +287,8 @@ def oracle(rep, case, out):
     uniq = n > 0 and int(np.sum(y >= y.max() * (1 - 1e-12) - 1e-300)) == 1
     # 3. scale laws
     k = O.fl(case['k'])
-    S = out['_scaled']
-    for meth, p in SCALE.items():
+    S = out.get('_scaled')
+    for meth, p in (SCALE.items() if S is not None else ()):
         if meth == 'wpeak' and not uniq:
             continue
         a, b = val(R, meth), val(S, meth)
@@ -507,11 +507,17 @@ def underflow_risk(c):
     return False
 
 
-def gen_case(rng, K, nmax_t, nmax_g):
+def gen_case(rng, K, nmax_t, nmax_g, sparse=False):
+    """sparse (thorough tier): each of the three companion evaluations (bp*k, reversed grid, other unit) is made
+    for a third of the cases only, which keeps 1e5 cases x 17 method calls inside the time budget"""
     while True:
         c = gen_case1(rng, K, nmax_t, nmax_g)
         if not underflow_risk(c):
-            return c
+            break
+    if sparse:
+        for f in ('do_scaled', 'do_rev', 'do_unit'):
+            c[f] = rng.random() < 1 / 3
+    return c
 
 
 def gen_case1(rng, K, nmax_t, nmax_g):
@@ -638,7 +644,8 @@ def run(rep):
     for i in range(ncase):
         # most tables stay small; the long ones exercise the sums
         big = thorough and rng.random() < 0.25
-        cases.append(gen_case(rng, K, nmax_t if (big or not thorough) else 16, nmax_g if (big or not thorough) else 24))
+        cases.append(gen_case(rng, K, nmax_t if (big or not thorough) else 16, nmax_g if (big or not thorough) else 24,
+                              sparse=thorough))
     rep.rule = ('non-negative bandpasses: tables of 2..%d points with arbitrary dyadic spacing (gaps over four decades, zeros, flat tops, '
                 'ascending or descending, a few below/at 1 Angstrom and a few with negative values for the division-free methods), boxes with '
                 'a coarse step, Gaussians, products of two, each optionally times a number; sampled on the default waveset or on explicit grids '
